@@ -182,6 +182,13 @@ func (s *state) hget(l *Loc) *Term {
 // content renders the data a value stands for when it is consumed by an
 // uninterpreted operation: referenced memory for references.
 func (s *state) content(t *Term) *Term {
+	if t.Op != "&" && !t.IsConst() && !t.Nil {
+		// an object held as a data term (e.g. a hash returned by a constructor)
+		// whose state was updated by later calls
+		if e, ok := s.heap["T:"+t.String()]; ok {
+			return e.t
+		}
+	}
 	if t.Op == "&" {
 		c := s.hget(t.Loc)
 		if c.Op == "&" && c.Loc.key() != t.Loc.key() {
@@ -195,16 +202,19 @@ func (s *state) content(t *Term) *Term {
 // ---------------------------------------------------------------------------
 
 func shortName(fn *ssa.Function) string {
-	s := load.FuncName(fn)
-	s = strings.ReplaceAll(s, "(*", "")
-	s = strings.ReplaceAll(s, "(", "")
-	s = strings.ReplaceAll(s, ")", "")
-	// keep the last path element of the package
-	if i := strings.LastIndex(s, "/"); i >= 0 {
-		// but not inside a type name
-		s = s[i+1:]
+	if fn.Signature.Recv() != nil {
+		t := fn.Signature.Recv().Type()
+		if pt, ok := t.(*types.Pointer); ok {
+			t = pt.Elem()
+		}
+		if n, ok := t.(*types.Named); ok {
+			return n.Obj().Name() + "." + fn.Name()
+		}
 	}
-	return s
+	if fn.Pkg != nil {
+		return fn.Pkg.Pkg.Name() + "." + fn.Name()
+	}
+	return fn.Name()
 }
 
 func typeShort(t types.Type) string {
@@ -387,6 +397,8 @@ func (w *walker) binop(s *state, op token.Token, x, y *Term, typ types.Type) *Te
 			r = constTerm(constant.MakeBool(false))
 		case x.Nil && y.Nil:
 			r = constTerm(constant.MakeBool(true))
+		case y.Nil && nonNilByConstruction(x), x.Nil && nonNilByConstruction(y):
+			r = constTerm(constant.MakeBool(false))
 		case xr && yr:
 			if x.Loc.key() == y.Loc.key() {
 				r = constTerm(constant.MakeBool(true))
@@ -420,6 +432,17 @@ func (w *walker) binop(s *state, op token.Token, x, y *Term, typ types.Type) *Te
 	}
 	// algebraic identities that keep atoms canonical
 	return mk(op.String(), x, y)
+}
+
+// nonNilByConstruction: errors made by fmt.Errorf / errors.New.
+func nonNilByConstruction(t *Term) bool {
+	if t.Op == "err" && len(t.Args) == 1 {
+		switch t.Args[0].Op {
+		case "fmt.Errorf", "errors.New":
+			return true
+		}
+	}
+	return false
 }
 
 func isLocalRoot(r string) bool { return strings.HasPrefix(r, "A") || strings.HasPrefix(r, "M") }
@@ -1040,6 +1063,7 @@ func (w *walker) uninterpreted(s *state, fr *frame, instr ssa.CallInstruction, a
 	common := instr.Common()
 	name := "?"
 	var writes []int
+	readsRecv := true
 	returnsAlias := -1
 	all := args
 	var callee *ssa.Function
@@ -1054,6 +1078,7 @@ func (w *walker) uninterpreted(s *state, fr *frame, instr ssa.CallInstruction, a
 				writes = append(writes, i)
 			}
 			sort.Ints(writes)
+			readsRecv = sum.Reads[0]
 			for i := range sum.Returns {
 				if returnsAlias < 0 || i < returnsAlias {
 					returnsAlias = i
@@ -1083,8 +1108,8 @@ func (w *walker) uninterpreted(s *state, fr *frame, instr ssa.CallInstruction, a
 				written = true
 			}
 		}
-		if written && c.Op == "zero" && i == 0 {
-			continue // fresh destination object
+		if written && i == 0 && (c.Op == "zero" || !readsRecv) {
+			continue // pure destination: fresh object, or a callee that never reads its receiver
 		}
 		cargs = append(cargs, c)
 	}
@@ -1101,6 +1126,21 @@ func (w *walker) uninterpreted(s *state, fr *frame, instr ssa.CallInstruction, a
 		}
 		s.events = append(s.events, ct.String())
 		return ct
+	}
+	// absorb sequences: Write(Write(ctor, a), b) is rendered H(ctor, a, b); Reset restarts
+	if strings.HasSuffix(name, ".Write") && len(cargs) == 2 && common.Signature().Results().Len() == 2 {
+		if cargs[0].Op == "H" {
+			ct = mk("H", append(append([]*Term{}, cargs[0].Args...), cargs[1])...)
+		} else {
+			ct = mk("H", cargs[0], cargs[1])
+		}
+	}
+	if strings.HasSuffix(name, ".Reset") && len(cargs) == 1 {
+		if cargs[0].Op == "H" {
+			ct = mk("H", cargs[0].Args[0])
+		} else {
+			ct = cargs[0]
+		}
 	}
 	// distinguish repeated constructor calls
 	if len(cargs) == 0 {
